@@ -47,6 +47,45 @@ def gen_stream(ctx, n, depth):
     return out
 
 
+def map_family(rng, n):
+    """text policies with a `map` statement in an action (map is not part of model/Lang.v): (text, must_reject, args, facts)"""
+    out = []
+    for i in range(n):
+        v = rng.choice(['p', 'f', 'it', 'row'])
+        fact, key, kt, val = rng.choice([('Own', 'who', 'int', 'n'), ('Pet', 'name', 'string', 'age')])
+        klit = '3' if kt == 'int' else '"rex"'
+        body = rng.choice(['let z = %s.%s' % (v, val), 'check %s.%s > -5 else todo()' % (v, val), 'let z = %s.%s\n        let y = %s' % (v, val, v), ''])
+        c = rng.below(9)
+        pre, params, args, bad = '', '', '-', False
+        if c == 0:
+            lit = '%s[%s:?]' % (fact, key)
+        elif c == 1:
+            lit = '%s[%s:%s]' % (fact, key, klit)
+        elif c == 2:
+            params, args = 'q %s' % kt, ('I3' if kt == 'int' else 'S' + b'rex'.hex())
+            lit = '%s[%s:q]' % (fact, key)
+        elif c == 3:
+            pre = 'let q = %s\n    ' % klit
+            lit = '%s[%s:q]=>{%s:?}' % (fact, key, val)
+        elif c == 4:
+            lit = '%s[%s:?]=>{%s:1}' % (fact, key, val)
+        elif c == 5:      # the loop variable in its own key
+            lit, bad = '%s[%s:%s.%s]' % (fact, key, v, key), True
+        elif c == 6:      # the loop variable in its own value field
+            lit, bad = '%s[%s:?]=>{%s:%s.%s}' % (fact, key, val, v, val), True
+        elif c == 7:      # ... shadowing an outer variable of the same name
+            pre, bad = 'let %s = %s\n    ' % (v, klit), True
+            lit = '%s[%s:%s]' % (fact, key, v)
+        else:             # the loop variable used after the map
+            lit, bad = '%s[%s:?]' % (fact, key), True
+            body = body + '\n    }\n    let after = %s.%s\n    if true {' % (v, val)
+        text = ('fact Own[who int]=>{n int}\nfact Pet[name string]=>{age int}\naction a(%s) {\n    %smap %s as %s {\n        %s\n    }\n}\n'
+                % (params, pre, lit, v, body))
+        facts = "TOwn{who=I3}/TOwn{n=I7};TOwn{who=I4}/TOwn{n=I1};TPet{name=S%s}/TPet{age=I2}" % b'rex'.hex()
+        out.append((text, bad, args, facts))
+    return out
+
+
 def run(ctx):
     vlib.regen(ctx)
     vlib.prove(ctx)
@@ -224,6 +263,32 @@ def run(ctx):
         return
     ctx.oblige("correspondence:L3:match-family-impl-run=reference-semantics", not mism5, "%d disagreeing runs" % len(mism5))
 
+    # ---------------- `map` statements: the loop variable is in scope in the body only
+    maps = map_family(ctx.rng, 600 if thorough else 60)
+    resq, err = cc.run_harness(vlib, binp, ["C " + t.encode().hex() for (t, bad, a, f) in maps])
+    if resq is None:
+        ctx.oblige("harness:run:map-family", False, err)
+        return
+    map_slipped = [(t, l) for ((t, bad, a, f), l) in zip(maps, resq) if bad and l.startswith("ok ")]
+    map_refused = [(t, l) for ((t, bad, a, f), l) in zip(maps, resq) if not bad and not l.startswith("ok ")]
+    for (t, l) in map_slipped[:3]:
+        ctx.violation("the compiler accepted a `map` whose fact literal (or the code after it) uses the map's own loop variable",
+                      {"policy": t, "contradicts": "accepted_is_safe_full_stmt (coq/proofs/CompileMachine.v): the variable is defined by QueryNext, after the literal is evaluated",
+                       "replay_cmd": "echo 'C %s' | build/target/debug/c24" % t.encode().hex()})
+    ctx.oblige("oracle:L1:map-loop-variable-scope", not map_slipped and not map_refused,
+               "%d ill-scoped maps accepted, %d well-formed maps rejected: %s" % (len(map_slipped), len(map_refused), map_refused[:1]))
+    mapruns = [(t, a, f) for ((t, bad, a, f), l) in zip(maps, resq) if l.startswith("ok ")]
+    resr, err = cc.run_harness(vlib, binp, ["R %s action a 0 %s %s" % (t.encode().hex(), a, f) for (t, a, f) in mapruns])
+    if resr is None:
+        ctx.oblige("harness:run:map-family-l3", False, err)
+        return
+    map_wrong = [(t, a, l) for ((t, a, f), l) in zip(mapruns, resr) if l == "panic" or not l.startswith("normal|")]
+    for (t, a, l) in map_wrong[:3]:
+        ctx.violation("an accepted action with a `map` statement did not run to completion",
+                      {"policy": t, "args": a, "impl": l[:300], "contradicts": "accepted_is_safe_full_stmt (coq/proofs/CompileMachine.v)",
+                       "replay_cmd": "echo 'R %s action a 0 %s <facts>' | build/target/debug/c24" % (t.encode().hex(), a)})
+    ctx.oblige("oracle:L3:accepted-maps-run-to-completion", not map_wrong, "%d runs, first %s" % (len(map_wrong), [x[2][:120] for x in map_wrong[:1]]))
+
     accepted_mutants = sum(d["accepted"] for k, d in by_mut.items() if k != "unmutated")
     ctx.coverage.update({
         "traces_validated_against_impl": len(usable) + len(fn_runs) + len(pol_runs) + len(fam_usable) + len(mruns),
@@ -233,6 +298,7 @@ def run(ctx):
         "distribution": {"programs": len(usable), "acceptance_by_mutation": by_mut, "accepted_mutants_run": accepted_mutants,
                          "runs": len(fn_runs) + len(pol_runs), "exit_reasons": exits, "unusable_harness_lines": len(bad_lines),
                          "nesting_depth": depth,
+                         "map_family": {"policies": len(maps), "ill_scoped": sum(1 for m in maps if m[1]), "accepted_and_run": len(mapruns)},
                          "match_family": {"shapes": len(fam), "of": len(all_shapes), "accepted": sum(1 for l in resm if l.startswith("ok ")),
                                           "covered_by_construction": sum(1 for (sh, p) in fam if sh[2]), "runs": len(mruns),
                                           "runs_compared_with_lang": len(sample)}},
